@@ -121,6 +121,8 @@ func resolveRB(p *Prog, r *Report) *rbInfo {
 }
 
 func runC10(p *Prog, r *Report) {
+	// R6: the rebalancer's records and the wrapped balancer cannot drift apart: pool changes of the wrapped balancer under the rebalancer mutex, records own their URL (shared with C02.R6 / C02.R5)
+	r.Borrow(p, runC02, map[string]string{"C02.R6": "C10.R6", "C02.R5": "C10.R6"}, nil)
 	rb := resolveRB(p, r)
 	if rb == nil {
 		return
